@@ -371,6 +371,12 @@ func (d *V1) Apply(op model.Op) (res model.Result) {
 			return fail(err)
 		}
 		return model.Result{Desc: v1Desc(out.TableDescription)}
+	case "SetMetrics":
+		v1client.SetItemCollectionMetrics(c, map[string][]*dynamodb.ItemCollectionMetrics{
+			"tbl":  {{ItemCollectionKey: map[string]*dynamodb.AttributeValue{"pk": {S: aws.String("a")}}}},
+			"tbl2": {{ItemCollectionKey: map[string]*dynamodb.AttributeValue{"pk": {S: aws.String("b")}}}},
+		})
+		return model.Result{}
 	case "NativeGet":
 		_ = c.GetNativeInterpreter()
 		return model.Result{}
@@ -443,7 +449,7 @@ func (d *V1) Apply(op model.Op) (res model.Result) {
 		in := &dynamodb.QueryInput{TableName: aws.String(op.Table), IndexName: strPtrOrNil(op.Index),
 			KeyConditionExpression: aws.String(op.KeyCond), FilterExpression: strPtrOrNil(op.Filter),
 			ExpressionAttributeNames: v1Names(op.Names), ExpressionAttributeValues: ToV1Item(op.Values),
-			ExclusiveStartKey: ToV1Item(op.StartKey), ConsistentRead: boolPtrOrNil(op.Consistent)}
+			ExclusiveStartKey: ToV1Item(op.StartKey), ConsistentRead: boolPtrOrNil(op.Consistent), ProjectionExpression: strPtrOrNil(op.Projection)}
 		if op.Limit > 0 {
 			in.Limit = aws.Int64(int64(op.Limit))
 		}
@@ -458,7 +464,7 @@ func (d *V1) Apply(op model.Op) (res model.Result) {
 	case "Scan":
 		in := &dynamodb.ScanInput{TableName: aws.String(op.Table), IndexName: strPtrOrNil(op.Index),
 			FilterExpression: strPtrOrNil(op.Filter), ExpressionAttributeNames: v1Names(op.Names), ExpressionAttributeValues: ToV1Item(op.Values),
-			ExclusiveStartKey: ToV1Item(op.StartKey), ConsistentRead: boolPtrOrNil(op.Consistent)}
+			ExclusiveStartKey: ToV1Item(op.StartKey), ConsistentRead: boolPtrOrNil(op.Consistent), ProjectionExpression: strPtrOrNil(op.Projection)}
 		if op.Limit > 0 {
 			in.Limit = aws.Int64(int64(op.Limit))
 		}
@@ -490,6 +496,14 @@ func (d *V1) Apply(op model.Op) (res model.Result) {
 			return fail(err)
 		}
 		r := model.Result{}
+		if len(out.ItemCollectionMetrics) > 0 {
+			var ms []string
+			for t, l := range out.ItemCollectionMetrics {
+				ms = append(ms, fmt.Sprintf("%s:%d", t, len(l)))
+			}
+			sort.Strings(ms)
+			r.Metrics = strings.Join(ms, " ")
+		}
 		tables := make([]string, 0, len(out.UnprocessedItems))
 		for t := range out.UnprocessedItems {
 			tables = append(tables, t)
